@@ -27,6 +27,20 @@ def _ref(body, key):
     return None if match is None else int(match.group(1))
 
 
+PDF_STRING = rb'(?:\(([^)]*)\)|<([0-9a-fA-F]*)>)'
+
+
+def _pdf_string(literal, hexa):
+    """The two groups of PDF_STRING -> the text: a literal ASCII string, or a hex string holding BOM + UTF-16-BE (what
+    pydyf.String writes for a non-ASCII string)."""
+    if hexa:
+        raw = bytes.fromhex(hexa.decode())
+        if raw[:2] == b'\xfe\xff':
+            return raw[2:].decode('utf-16-be')
+        return raw.decode('latin1')
+    return (literal or b'').decode('latin1')
+
+
 def parse_pdf(data):
     """Uncompressed PDF bytes -> the nested list the driver command `pdfdoc` prints (numbers as written)."""
     objects = {int(n): body for n, body in OBJ_RE.findall(data)}
@@ -55,10 +69,10 @@ def parse_pdf(data):
             if b'/Subtype /Link' not in annot:
                 continue
             rect = _array(annot, b'Rect')
-            dest = re.search(rb'/Dest \(([^)]*)\)', annot)
+            dest = re.search(rb'/Dest ' + PDF_STRING, annot)
             uri = re.search(rb'/URI \(([^)]*)\)', annot)
             if dest is not None:
-                annots.append(['internal', dest.group(1).decode('latin1'), *rect])
+                annots.append(['internal', _pdf_string(*dest.groups()), *rect])
             else:
                 annots.append(['external', uri.group(1).decode('latin1'), *rect])
         pages.append([
@@ -67,8 +81,9 @@ def parse_pdf(data):
     names = ['names']
     match = re.search(rb'/Dests <</Names \[(.*?)\]\]>>', catalog, re.S)
     if match is not None:
-        for name, ref, x, y in re.findall(rb'\(([^)]*)\) \[(\d+) 0 R /XYZ (\S+) (\S+) 0', match.group(1) + b']'):
-            names.append([name.decode('latin1'), page_index[int(ref)], x.decode(), y.decode()])
+        for literal, hexa, ref, x, y in re.findall(PDF_STRING + rb' \[(\d+) 0 R /XYZ (\S+) (\S+) 0',
+                                                   match.group(1) + b']'):
+            names.append([_pdf_string(literal, hexa), page_index[int(ref)], x.decode(), y.decode()])
     outlines = ['outlines']
     root = _ref(catalog, b'Outlines')
     if root is not None:
